@@ -136,15 +136,16 @@ def compute(cfg, assume=(), call_kills=None, expand=None, await_kills=False):
             names = names_loaded(e) if e is not None else set()
             chains = attr_chains(e) if e is not None else set()
             expanded = None
-            if expand is not None and e is not None and not label.whole:
+            if expand is not None and e is not None:
                 try:
                     ex = expand(e, node)
                 except RecursionError:
                     ex = None
                 if ex is not None:
-                    t2, p2 = terms.atom(ex)
+                    fn = terms.whole if label.whole else terms.atom
+                    t2, p2 = fn(ex)
                     # keep polarity aligned with the label
-                    t0, p0 = terms.atom(e)
+                    t0, p0 = fn(e)
                     expanded = t2 if (p2 == p0) else None
                     if expanded == label.term:
                         expanded = None
